@@ -124,6 +124,7 @@ func checkC20(p *Prog, c *Check) {
 		}
 	}
 	c.Floor(rule, nExit, 2)
+	deleteBeforeHandOff(p, c, "C20-R6", nExit)
 	// (b) per iteration: publication call or both modes off. The calls may sit in the loop body or in a
 	// helper the body calls and whose failure leaves the loop (a "publisher": every successful return of
 	// it lies behind the broadcast call or the broadcast-off edge, and behind the callback or the
